@@ -1,6 +1,10 @@
 use self::world::*;
 fn walk(min: u32, max: u32, mode: TraversalMode, limit: u32, buffered: bool) -> Searcher { walk_a(min, max, mode, limit, buffered, false, false) }
 fn walk_a(min: u32, max: u32, mode: TraversalMode, limit: u32, buffered: bool, archives: bool, follow: bool) -> Searcher {
+    walk_f(min, max, mode, limit, buffered, archives, follow, true)
+}
+fn walk_f(min: u32, max: u32, mode: TraversalMode, limit: u32, buffered: bool, archives: bool, follow: bool, reset: bool) -> Searcher {
+    if reset { reset_faults(); }
     let mut s = Searcher { query: Query { limit }, found: 0, buffered, current_follow_symlinks: follow, visited_dirs: Set { seen: [false; N] }, visited_inodes: InoSet { seen: [false; N] },
                            dir_queue: Queue { items: [(0, false); N], head: 0, tail: 0 }, error_count: 0, hgignore_filters: Filters, dockerignore_filters: Filters, log: [0; 12], n: 0 };
     let r = s.visit_dir(&Path(0, false), min, max, 0, archives, false, None, false, false, mode, true);
@@ -103,4 +107,95 @@ fn c06_walk_limit_archive() {
 fn canary_walk_must_fail() {
     let s = walk(0, 1, TraversalMode::Bfs, 0, false);
     assert!(s.n == 5, "CANARY must fail");
+}
+// ---- C19: archive members ----
+// with `archives` every member of a readable zip archive in the window is reported exactly once, right after the archive; the ordinary rows are those
+// of the same query without the option
+fn members_check(mode: TraversalMode) {
+    let with = walk_a(0, 0, mode, 0, false, true, false);
+    let without = walk(0, 0, mode, 0, false);
+    assert!(count(&with, 12) == 1 && count(&with, 22) == 1 && with.n == without.n + 2, "OBL C19.members: each member exactly once, nothing else added");
+    // the ordinary rows, in order, are those of the query without `archives`
+    let mut i = 0; let mut j = 0;
+    while i < with.n { let c = with.log[i]; if c < 10 { assert!(j < without.n && without.log[j] == c, "OBL C19.members: ordinary rows unchanged"); j += 1; } i += 1; }
+    assert!(j == without.n, "OBL C19.members: no ordinary row lost");
+    // members follow their archive
+    let mut k = 0; while k + 2 < with.n { if with.log[k] == 2 { assert!(with.log[k + 1] == 12 && with.log[k + 2] == 22, "OBL C19.members: members are listed right after the archive, in archive order"); } k += 1; }
+    assert!(with.error_count == 0, "OBL C19.members: no error");
+}
+#[kani::proof]
+#[kani::unwind(9)]
+fn c19_members_bfs() { kani::cover!(true); members_check(TraversalMode::Bfs); }
+#[kani::proof]
+#[kani::unwind(9)]
+fn c19_members_dfs() { kani::cover!(true); members_check(TraversalMode::Dfs); }
+// members obey the depth window of their archive: an archive outside the window contributes nothing
+#[kani::proof]
+#[kani::unwind(9)]
+fn c19_members_window() {
+    kani::cover!(true);
+    let s = walk_a(2, 0, TraversalMode::Bfs, 0, false, true, false);      // mindepth 2: the archive (level 1) is outside
+    assert!(count(&s, 2) == 0 && count(&s, 12) == 0 && count(&s, 22) == 0 && s.n == 3, "OBL C19.members.window: an archive outside the window contributes no row");
+}
+// a corrupt archive, or an unreadable member, is skipped without aborting the search or losing other rows
+#[kani::proof]
+#[kani::unwind(9)]
+fn c19_corrupt() {
+    kani::cover!(true);
+    reset_faults(); unsafe { ZIP_CORRUPT = true; }
+    let s = walk_f(0, 0, TraversalMode::Bfs, 0, false, true, false, false);
+    assert!(s.n == 5 && s.log[..5] == [1, 2, 3, 4, 5], "OBL C19.corrupt: a corrupt archive is listed as a file, has no members, and every other row is there");
+    reset_faults(); unsafe { ZIP_BAD_MEMBER = 0; }
+    let s2 = walk_f(0, 0, TraversalMode::Bfs, 0, false, true, false, false);
+    assert!(s2.n == 6 && s2.log[..6] == [1, 2, 22, 3, 4, 5], "OBL C19.corrupt: an unreadable member is skipped, the next one and all other rows are there");
+}
+// ---- C17: fault isolation in the traversal ----
+// a directory that cannot be listed costs its own content only: everything outside it is still reported, one diagnostic names it, one error is counted
+fn unlistable_check(mode: TraversalMode) {
+    reset_faults(); unsafe { UNLISTABLE = 4; }
+    let s = walk_f(0, 0, mode, 0, false, false, false, false);
+    assert!(count(&s, 1) == 1 && count(&s, 2) == 1 && count(&s, 3) == 1 && count(&s, 4) == 1 && count(&s, 5) == 0 && s.n == 4, "OBL C17.unlistable: exactly the rows outside the unlistable directory (which itself is still a row)");
+    assert!(s.error_count == 1 && unsafe { DIAG_COUNT == 1 && DIAG_LAST == 4 }, "OBL C17.unlistable: one error counted (exit status 1), one diagnostic naming the failing path");
+    reset_faults();
+    let ok = walk_f(0, 0, TraversalMode::Bfs, 0, false, false, false, false);
+    assert!(ok.error_count == 0 && unsafe { DIAG_COUNT == 0 } && ok.n == 5, "OBL C17.unlistable: nothing fails, no error, no diagnostic");
+}
+#[kani::proof]
+#[kani::unwind(9)]
+fn c17_unlistable_bfs() { kani::cover!(true); unlistable_check(TraversalMode::Bfs); }
+#[kani::proof]
+#[kani::unwind(9)]
+fn c17_unlistable_dfs() { kani::cover!(true); unlistable_check(TraversalMode::Dfs); }
+// an unreadable directory entry, or an entry whose type cannot be determined, costs that entry only
+#[kani::proof]
+#[kani::unwind(9)]
+fn c17_bad_entry() {
+    kani::cover!(true);
+    reset_faults(); unsafe { BAD_ENTRY_IN = 1; }
+    let s = walk_f(0, 0, TraversalMode::Bfs, 0, false, false, false, false);
+    assert!(s.n == 5 && s.log[..5] == [1, 2, 3, 4, 5] && s.error_count == 1 && unsafe { DIAG_LAST == 1 }, "OBL C17.bad_entry: an unreadable entry is reported once against its directory, every readable entry is still a row");
+    reset_faults(); unsafe { NO_FILETYPE = 4; }
+    let s2 = walk_f(0, 0, TraversalMode::Bfs, 0, false, false, false, false);
+    assert!(s2.n == 4 && s2.log[..4] == [1, 2, 3, 4] && s2.error_count == 1 && unsafe { DIAG_LAST == 4 }, "OBL C17.bad_entry: an entry without a type is still a row; only what is below it is lost, with one diagnostic");
+}
+// a closed pipe stops the search without a crash: no further row is produced and no error is invented
+#[kani::proof]
+#[kani::unwind(9)]
+fn c17_closed_pipe_bfs() {
+    let k: u32 = kani::any();
+    kani::assume(k <= 5);
+    kani::cover!(k == 2);
+    reset_faults(); unsafe { PIPE_CLOSED_AFTER = k; }
+    let s = walk_f(0, 0, TraversalMode::Bfs, 0, false, false, false, false);
+    assert!(s.n == k as usize && s.error_count == 0, "OBL C17.closed_pipe: exactly the rows written before the pipe closed, no error counted, no panic");
+}
+#[kani::proof]
+#[kani::unwind(9)]
+fn c17_closed_pipe_dfs() {
+    let k: u32 = kani::any();
+    kani::assume(k <= 5);
+    kani::cover!(k == 3);
+    reset_faults(); unsafe { PIPE_CLOSED_AFTER = k; }
+    let s = walk_f(0, 0, TraversalMode::Dfs, 0, false, false, false, false);
+    assert!(s.n == k as usize && s.error_count == 0, "OBL C17.closed_pipe: exactly the rows written before the pipe closed, no error counted, no panic");
 }
